@@ -60,6 +60,25 @@ Theorem C18_factor_line : forall f,
   POk (mkFactor (f_cr f) (f_src f) (f_dest f) (f_step f) (mkRNC (rb 3 (ren (f_val f))) (rb 3 (nren (f_val f))) (rb 3 (co2 (f_val f)))) (f_cmt f)).
 Proof. exact factor_roundtrip. Qed.
 
+(** a metadata line, for a key without colon that is not one of the three legacy names *)
+Theorem C18_metadata_line : forall m,
+  clean_key (m_key m) = true -> clean_cmtb (m_value m) = true -> parse_meta (show_meta m) = POk m.
+Proof. exact meta_roundtrip. Qed.
+
+(** a whole factors file (what --of writes): the text of [Display] reads back as the same set — same metadata, same
+    factors in the same order with the same tags and comments, every value at the written precision *)
+Theorem C18_factors_file : forall f,
+  wmeta f <> [] -> wdata f <> [] -> Forall good_meta (wmeta f) -> Forall good_factor (wdata f) ->
+  parse_factors (show_factors f) = POk (mkFactors (wmeta f) (map rt_factor (wdata f))).
+Proof. exact factors_file_roundtrip. Qed.
+
+Example C18_factors_file_example :
+  let f := mkFactors [mkMeta (cs "CTE_FUENTE") (cs "RITE2014, v: 1"); mkMeta (cs "CTE_LOCALIZACION") []]
+                     [mkFactor ELECTRICIDAD RED SUMINISTRO STEP_A (mkRNC (qfrac 414 1000) (qfrac 1954 1000) (qfrac 331 1000)) (cs "red, peninsular # 2014");
+                      mkFactor ELECTRICIDAD INSITU A_RED STEP_B (mkRNC (qfrac 1 2) (qfrac 2 1) (qfrac 42 100)) []] in
+  Forall good_meta (wmeta f) /\ Forall good_factor (wdata f).
+Proof. cbv zeta. split; repeat constructor; vm_compute; reflexivity. Qed.
+
 (** a component without values is written with a trailing ", " and does not read back: the hypothesis [v <> []] is needed *)
 Example C18_empty_values_refuted :
   parse_used (show_energy (EUsed 1 ELECTRICIDAD ACS [] [])) = PErr ParseError
@@ -83,3 +102,5 @@ Print Assumptions C18_auxiliary_line.
 Print Assumptions C18_output_line.
 Print Assumptions C18_demand_line.
 Print Assumptions C18_factor_line.
+Print Assumptions C18_metadata_line.
+Print Assumptions C18_factors_file.
